@@ -8,7 +8,7 @@ from props.common import *
 
 ck = Check('C17')
 T = ck.tier
-ex = ck.executor('tensor_chain', unroll=24, default_maxlen=1 if T == 'quick' else 2)
+ex = ck.executor('tensor_chain', unroll=24, default_maxlen=1)
 K_UPD = 2 if T == 'quick' else 3
 ck.bounds = {'existing members in view': f'0..{ex.default_maxlen}', 'updates': K_UPD, 'schedules': 'see per_obligation',
              'fields': '64-bit, timestamps and clock < 2^62 (above: the +1 in sync_time/tick overflows – outside the quantifier\'s small ranges)'}
